@@ -390,13 +390,58 @@ func cmdProp(args []string) {
 		}
 		fmt.Printf("VIOLATION property=%s replay=%s obligation=%s tags=%s status=%s%s\n", id, rp.Path, o.Name, tg, o.Result.Status, suffix)
 	}
+	var undecidedBounded []BoundedResult
 	for _, r := range undecided {
-		violations++
 		name := r.Func + "#analysable"
 		tg := r.Tags
 		if tg == "" {
 			tg = "default"
 		}
+		// A function that left the verifier's subset (a renamed local that an invariant names, a restructured loop)
+		// is undecided, not violated. Where its contract can be evaluated on concrete runs, the real code is run on
+		// the boundary lattice and seeded random inputs in every alias partition: a disagreement is a violation with
+		// its failing input; agreement on all evaluated inputs is reported as UNDECIDED (bounded check passed) and
+		// does not raise the alarm. Where no concrete evaluation is possible the function is reported as before.
+		if m, okm := resMeta[r]; okm && r.Status == "outside-subset" {
+			if fn := m.v.findFunc(m.pkg, m.c.Func); fn != nil && len(fn.Blocks) > 0 {
+				evaluated, confirmed, replayable := 0, false, true
+				m.v.resetRun()
+				m.v.setupLayer(m.pkg, m.c)
+				for _, part := range m.v.partitions(fn, m.c) {
+					ctx := &ReplayCtx{V: m.v, Pkg: m.pkg, Fn: fn, C: m.c, Part: part, Tags: r.Tags, Repo: *repo}
+					if (m.c.Layer != "" && m.v.ringLayerField(m.pkg, m.c) == nil) || newReplayPlan(ctx) == nil {
+						replayable = false
+						break
+					}
+					probe := &Obligation{Name: r.Func + "#bounded-check-of-undecided@" + part.label, Kind: "bounded", Ctx: ctx, Spec: "the function satisfies its contract on the tried inputs (it can no longer be analysed deductively)"}
+					sc, _ := os.MkdirTemp("", "gcv-und-")
+					rr := replayModel(*repo, probe, sc, id)
+					os.RemoveAll(sc)
+					if rr == nil {
+						replayable = false
+						break
+					}
+					evaluated += rr.Evaluated
+					if rr.Confirmed {
+						confirmed = true
+						violations++
+						probe.Result = &SolverResult{Status: "concrete-counterexample", Solver: "go test"}
+						rp := writeReplayWith(replayDir, id, probe, *repo, rr)
+						fmt.Printf("VIOLATION property=%s replay=%s obligation=%s tags=%s status=concrete-counterexample clauses=%v (the function is also outside the verifier's subset: %s)\n", id, rp, probe.Name, tg, rr.Violated, r.Reason)
+						break
+					}
+				}
+				if confirmed {
+					continue
+				}
+				if replayable && evaluated >= 40 {
+					fmt.Printf("UNDECIDED property=%s function=%s tags=%s reason=%q bounded-check=passed inputs=%d (not a proof; no alarm raised)\n", id, r.Func, tg, r.Reason, evaluated)
+					undecidedBounded = append(undecidedBounded, BoundedResult{Function: r.Func + " [" + tg + "] (outside the subset on this tree: " + r.Reason + ")", Bound: "boundary lattice and seeded random inputs in every alias partition; inputs meeting the precondition are evaluated against every clause of the contract", Cases: evaluated, Result: "agrees with the contract on the tried inputs; NOT proved"})
+					continue
+				}
+			}
+		}
+		violations++
 		rec := map[string]interface{}{"property": id, "obligation": name, "kind": "undecided", "spec": "every function under contract is within the verifier's subset and all its obligations are generated",
 			"status": "undecided", "solver": "none", "tags": tg, "verifier_output": r.Reason,
 			"note": "no obligation could be generated for this function on the current tree (" + r.Status + "): the property is not shown for it; no failing input is known"}
@@ -525,6 +570,7 @@ func cmdProp(args []string) {
 		bounded = plan.Bounded(*tier, seed)
 	}
 	bounded = append(bounded, asmBounded...)
+	bounded = append(bounded, undecidedBounded...)
 	// ---- C09: every assembly routine against its assumed contract, in every run-time configuration (bounded) ----
 	asmEvals, asmDistinct, asmRuns := 0, 0, 0
 	var asmSamples []interface{}
